@@ -183,6 +183,25 @@ def _native_many(subs):
     return rp
 
 
+def _native_c11(pid):
+    def rp(failure, tier):
+        return replay.kreplay('c11', [40 if tier == 'quick' else 400, pid]).get('found')
+    rp.what = ('pseudo-random sequential histories (40 x 3 front-ends x 30 operations; 400 in the thorough tier) of get / touch / set / put over three keys through a plain, a '
+               'sharded and a stacked cache, two independent handles on the same directories, nothing evicted, against a map model: lookups, consumed sources, one copy per key '
+               '(C11); read marks and queue positions after every operation (C09); the read-only root unchanged except access times (C15)')
+    return rp
+
+
+def _thorough_c11(pid):
+    def th(tier):
+        r = replay.kreplay('c11', [400, pid], timeout=3000)
+        out = {'bounded': ['model-differential histories on the real crate: %d operations' % r['evaluations']], 'coverage': {'native_evaluations': r['evaluations']}}
+        if r.get('found'):
+            out['violations'] = [{'property': pid, 'obligation': ['bounded: the real crate disagrees with the map model'], 'failing_input': r['found']}]
+        return out
+    return th
+
+
 def replay_c20(failure, tier):
     """Bounded stand-in for what the contracts cannot see (descriptors are closed by Drop) and for undecided runs:
     the real crate under strace, see replay/src/c20.rs and tools/replay.py::c20_search."""
@@ -217,6 +236,27 @@ def thorough_c18(pid):
             out['violations'] = [{'property': pid, 'obligation': ['bounded: fault injection on the real crate'], 'failing_input': found}]
         return out
     return th
+
+
+def replay_c02(failure, tier):
+    """Bounded stand-in for C02: kill at every boundary between two filesystem calls of one operation, then inspect and
+    use the directories from a second process; see replay/src/c02.rs and tools/replay.py::c02_search."""
+    return replay.c02_search(tier)
+
+
+replay_c02.what = ('crash injection (strace -e inject=…:signal=SIGKILL) on entry to every system call of set / put / ensure (miss, promotion) with and without maintenance, plain and '
+                   'sharded write side, missing directories (about 100 crash points; 279 over 16 scenarios in the thorough tier); a second process then checks that every key-named '
+                   'file is a complete read-only value, that debris is confined to .kismet_temp, that get / put / set / ensure succeed, that young debris survives maintenance '
+                   'and debris older than the age limit is removed by it')
+
+
+def thorough_c02(tier):
+    found = replay.c02_search('thorough')
+    out = {'bounded': [replay_c02.what + ' (%s crash points in this run)' % getattr(replay.c02_search, 'runs', '?')],
+           'coverage': {'native_evaluations': getattr(replay.c02_search, 'runs', 0)}}
+    if found:
+        out['violations'] = [{'property': 'C02', 'obligation': ['bounded: crash injection on the real crate'], 'failing_input': found}]
+    return out
 
 
 def thorough_c20(pid):
@@ -321,12 +361,14 @@ _u4('C16', 'Unbounded proof: validate_file_name accepts exactly the names whose 
 _u4('C09', 'Unbounded proof for every timestamp granularity in [1 ns, 2 s] and every kernel atime behaviour (open may or may not advance atime): after a successful '
     'CacheDir::get hit, touch (true) or put onto an existing key the entry satisfies atime >= mtime with mtime and content unchanged; after set or an inserting put '
     'the entry carries mtime = trunc(now) (>= every other stored mtime) and atime < mtime; reads never pass Some(mtime) to futimens (stub precondition).',
+    replayer=_native_c11('C09'), thorough=_thorough_c11('C09'),
     not_covered=[SHARD_NC, STACK_NC])
 _u4('C02', 'Unbounded proof of the crash invariant at every call boundary: every POSIX stand-in requires World.valid and is proved (u0_stubs) to re-establish it from its protocol precondition (whatever is visible under a key name '
     'is read-only and holds bytes supplied for that key), rename/link require the publish guarantee (private, read-only, stamped, synced if required, supplied for that key), '
     'and every function under contract ensures valid on every exit including errors; only cache directories and .kismet_temp are ever created; stale temp files are the only '
     'temp files ever removed; a maintenance run in which no call fails leaves no file in .kismet_temp older than the age limit (no_stale_temp: loop invariant over the complete '
     'directory listing, readdir completeness assumed).',
+    replayer=replay_c02, thorough=thorough_c02,
     not_covered=['removal of our own temporary files on error paths is Drop of NamedTempFile / TempPath, invisible to contracts',
                  'completeness of temp-file cleanup is proved for cleanup_temporary_directory, CacheDir::{cleanup_temp_directory, definitely_cleanup, maintain} (plain directories and single shards); '
                  'the sharded front-end only cleans the shard it maintains'])
@@ -350,10 +392,12 @@ _u4('C20', 'Proof that the step and open counts of get/touch/set/put outside mai
     not_covered=['peak and residual open descriptors are not provable by contract (closing is Drop): they are only observed, bounded, by the system-call trace of replay/src/c20.rs', SHARD_NC, STACK_NC])
 _u4('C15', 'Proof that lookups change nothing but the access time of the entry found (files, dirs equal; every inode equal up to atime, and only the found one), and that every '
     'mutating stub (rename, link, unlink, chmod, utimensat with mtime, mkdir) requires its target not to be under a read-only root.',
+    replayer=_native_c11('C15'), thorough=_thorough_c11('C15'),
     not_covered=['that ReadOnlyCache / the read side of Cache only ever call get and touch is part of the stack unit', STACK_NC, SHARD_NC])
 _u4('C11', 'Proof of the exact sequential effect of plain-directory operations over the ghost filesystem: get returns a handle on the inode bound to child(base,name) or None iff absent; '
     'set binds the key to the source inode, consumes the source, after maintenance; put inserts when absent and otherwise only marks; every disappearance is a plan victim '
     'of a directory that was listed (cleanup_frame) or a stale temp file.',
+    replayer=_native_c11('C11'), thorough=_thorough_c11('C11'),
     not_covered=[SHARD_NC, STACK_NC, 'the lifting from per-operation effects to whole histories is the standard induction, not mechanised'])
 _u4('C01', 'Proof (sequential model) of the publish protocol and of what lookups return: a file becomes visible under a key only through rename/link whose precondition demands a private, '
     'read-only, freshly stamped source holding bytes supplied for exactly that key; only a file no reader can see is ever written (preconditions of the copy and populate stubs); published '
@@ -431,6 +475,8 @@ PROPS['C17']['level_text'] += (' remove_dir / remove_dir_all have precondition f
 for _p in ('C06', 'C20'):
     PROPS[_p]['level_text'] += (' Bounded, next to the proof and never counted as proved: a system-call trace of the real crate (replay/src/c20.rs) for identical call counts across '
                                 'directory sizes, absence of lock and sleep calls, peak and residual descriptors, and completion of a put/set onto an entry with an extra hard link.')
+PROPS['C02']['level_text'] += (' Bounded, next to the proof and never counted as proved: the real crate is killed at every boundary between two filesystem calls of an operation '
+                               '(replay/src/c02.rs) and a second process inspects and uses the directories.')
 for _p in ('C18', 'C03'):
     PROPS[_p]['level_text'] += (' Bounded, next to the proof and never counted as proved: single-fault injection into every system call of each operation of the real crate '
                                 '(replay/src/c18.rs): no undocumented panic, Ok implies the effect, re-issue succeeds, visible files are complete and read-only, no temporary file '
